@@ -575,7 +575,7 @@ impl DnsSim {
                     self.stats.failed += 1;
                     let first = q.emissions.first().map(|e| e.0);
                     let timed_out = match first {
-                        Some(f) => now > f + 10 * SEC,
+                        Some(f) => now >= f + 10 * SEC,
                         None => false,
                     };
                     if !matching.is_empty() {
